@@ -60,7 +60,7 @@ fn mutator(rng: &mut Rng, n: &mut u32) -> String {
     *n += 1;
     let k = *n;
     let j = rng.range(1, 3);
-    match rng.below(40) {
+    match rng.below(42) {
         0..=2 => format!("x{j}=v{k}"),
         3 => format!("unset x{j}"),
         4 => format!("export ex{j}=v{k}"),
@@ -99,6 +99,10 @@ fn mutator(rng: &mut Rng, n: &mut u32) -> String {
         35..=36 => format!("x{j}=(a{k} 'b c{k}' '')"),
         37 => format!("ar{j}=()"),
         38 => "{ : & }".to_string(),
+        // `$?` on entry is the parent's
+        39 => format!("rc {}", rng.pick(&[1u8, 7, 42])),
+        // a variable assigned as a side effect of an expansion / of arithmetic
+        40 => format!(": ${{y{j}:=d{k}}} $((z{j}={k}))"),
         _ => format!("ulimit -n {}", rng.pick(&[40u32, 50, 60])),
     }
 }
@@ -370,7 +374,10 @@ fn check_test(t: &Test, snaps: &BTreeMap<String, SnapMap>, tolerant: bool, job_c
     // --- parent unchanged
     let cs_var = format!("var:cs{k}");
     let leak_skip = |key: &str| -> bool {
-        (key == "jobs" || key == "lastasync") && t.kind == Kind::Async || key == cs_var && matches!(t.kind, Kind::Cs | Kind::CsTrap)
+        // (`$?` after the subshell is its exit status)
+        key == "status"
+            || (key == "jobs" || key == "lastasync") && t.kind == Kind::Async
+            || key == cs_var && matches!(t.kind, Kind::Cs | Kind::CsTrap)
     };
     let mut parents = vec![("C", c)];
     if t.kind == Kind::Async {
@@ -667,7 +674,7 @@ impl Prop for C08 {
         "exploration"
     }
     fn rule(&self) -> String {
-        "Seeded programs of 1-4 subshell tests (kinds: ( ), $( ), both elements of a pipeline, asynchronous list; nested up to depth 3). Around every subshell the `snap` probe serialises the complete shell state (all variables with values and attributes, positional parameters, functions by printed body, aliases, all options, trap table, cwd, umask, NOFILE limit, descriptor table as fd -> open-file-description serial + flags, all signal dispositions, signal mask). Parent mutators before and child mutators inside are drawn from 34 state-changing commands (assignment, unset, export, readonly, function definition/removal, alias/unalias, set -o/+o, set --/shift, cd, umask, trap default/ignore/command/EXIT, exec N>file / N>&- / N<file / <file, ulimit -n). Oracles: parent snapshot before == after (for & also while the child runs and after wait), child-on-entry snapshot == parent's with exactly the documented differences, data written by children to shared files/pipes arrives (positive control). Schedules: FIFO baseline + seeded random/PCT/round-robin/FIFO-dev with preemption so the child runs between any two kernel calls of the parent. Distinct non-trivial = distinct (script hash, schedule hash, preemption count) with >= 2 processes. Added configurations: three-command pipelines; mutators that close descriptors (also 0), assign arrays and start asynchronous jobs; crash injection (children killed with SIGKILL from outside at seeded steps) with the leak oracle kept and every snapshot that was still taken checked. Further fault configurations, same tolerant oracle: one seeded descriptor allocation of the parent or a child fails with EMFILE; the whole script runs under `ulimit -n 10` (no descriptor >= 10 can be allocated: every save of a redirected descriptor and every attempt of a job-control shell to keep the terminal open fails, again and again), job control being switched on only afterwards.".into()
+        "Seeded programs of 1-4 subshell tests (kinds: ( ), $( ), both elements of a pipeline, asynchronous list; nested up to depth 3). Around every subshell the `snap` probe serialises the complete shell state (`$?`, all variables with values and attributes, positional parameters, functions by printed body, aliases, all options, trap table, cwd, umask, NOFILE limit, descriptor table as fd -> open-file-description serial + flags, all signal dispositions, signal mask). Parent mutators before and child mutators inside are drawn from 34 state-changing commands (assignment, unset, export, readonly, function definition/removal, alias/unalias, set -o/+o, set --/shift, cd, umask, trap default/ignore/command/EXIT, exec N>file / N>&- / N<file / <file, ulimit -n). Oracles: parent snapshot before == after (for & also while the child runs and after wait), child-on-entry snapshot == parent's with exactly the documented differences, data written by children to shared files/pipes arrives (positive control). Schedules: FIFO baseline + seeded random/PCT/round-robin/FIFO-dev with preemption so the child runs between any two kernel calls of the parent. Distinct non-trivial = distinct (script hash, schedule hash, preemption count) with >= 2 processes. Added configurations: three-command pipelines; mutators that close descriptors (also 0), assign arrays and start asynchronous jobs; crash injection (children killed with SIGKILL from outside at seeded steps) with the leak oracle kept and every snapshot that was still taken checked. Further fault configurations, same tolerant oracle: one seeded descriptor allocation of the parent or a child fails with EMFILE; the whole script runs under `ulimit -n 10` (no descriptor >= 10 can be allocated: every save of a redirected descriptor and every attempt of a job-control shell to keep the terminal open fails, again and again), job control being switched on only afterwards.".into()
     }
     fn assumptions(&self) -> Vec<String> {
         vec![
